@@ -76,11 +76,12 @@ class Gen:
     def op_remove(self, k=None):
         if k is None:
             k = self.anykey()
-        self.emit(self.rng.choice(["remove", "removeentry"]) + f" {k}")
+        self.emit(self.rng.choice(["remove", "removeentry", "removeb"]) + f" {k}")
         self.contents.pop(k, None)
     def op_lookup(self):
         k = self.present() if self.rng.random() < 0.6 and self.contents else self.anykey()
-        self.emit(self.rng.choice(["get", "getkv", "contains"]) + f" {k}")
+        # half of the lookups go through a borrowed form of the key (another type, Equivalent<K>)
+        self.emit(self.rng.choice(["get", "getkv", "contains", "getb", "getkvb", "containsb"]) + f" {k}")
     def op_misc(self, force=None):
         r = self.rng
         if getattr(self, "many", False) and r.random() < 0.5:
@@ -115,7 +116,7 @@ class Gen:
         c = r.choice(["getmut", "tryinsert", "entry_or_insert", "entry_insert", "entry_remove", "entry_and_modify",
                       "entry_drop", "retain", "extend", "drain", "extractif", "iter", "iterfold", "reserve",
                       "tryreserve", "shrinkto", "shrinktofit", "clear", "len", "capacity", "allocsize", "withcap",
-                      "dropmap", "iter", "iterfold", "retain", "extractif", "intoiter", "intokeys", "intovalues"])
+                      "dropmap", "iter", "iterfold", "retain", "extractif", "intoiter", "intokeys", "intovalues", "fromiter"])
         if force:
             c = force
         k = self.present() if r.random() < 0.5 and self.contents else self.anykey()
@@ -142,6 +143,16 @@ class Gen:
             bump = r.randrange(3)
             self.emit(f"retain {bump} " + " ".join(map(str, keep)))
             self.contents = {x: (self.contents[x][0], (self.contents[x][1] + bump) & M64) for x in keep}
+        elif c == "fromiter":
+            n = r.choice([0, 1, 3, 7, 8, 15, 29])
+            items = {}
+            toks = []
+            for _ in range(n):
+                kk, st, v = self.anykey(), self.st(), self.val()
+                toks.append(f"{kk}:{st}:{v}")
+                items[kk] = (items[kk][0] if kk in items else st, v)
+            self.emit("fromiter " + " ".join(toks) if toks else "fromiter")
+            self.contents = items
         elif c == "extend":
             n = r.randrange(1, 12)
             items = []
